@@ -21,6 +21,8 @@ type C05Case struct {
 	LineLimit int    `json:"line_limit"`
 	BadCmd    string `json:"bad_cmd,omitempty"`  // state malformed: the BDAT line to send (no payload)
 	LastTok   string `json:"last_tok,omitempty"` // spelling of the LAST token ("" = LAST); RFC 3030: case-insensitive
+	// WithErr: the connection returns its last octets TOGETHER with io.EOF (one Read with n > 0 and an error)
+	WithErr bool `json:"with_err,omitempty"`
 }
 
 // payload of the second message of the "ok" conversations
@@ -288,6 +290,7 @@ func c05LimiterCountsPayload(parts []part, seg string, limit int) bool {
 func evalC05(c C05Case) *h.Finding {
 	parts, cfg, be, want := c05Build(c)
 	segs := c05Segments(parts, c.Seg)
+	cfg.FinalWithErr = c.WithErr
 	o := h.RunS(cfg, be, segs, h.TermEOF)
 	desc := fmt.Sprintf("mode=%s state=%s msg=%q chunks=%v seg=%s linelimit=%d cmd=%q lasttoken=%q", c.Mode, c.State, c.Msg, c.Chunks, c.Seg, c.LineLimit, c.BadCmd, c.LastTok)
 	if f := o.Sanity("c05", desc); f != nil {
@@ -411,7 +414,7 @@ func C05(tier string) int {
 		bytes.Repeat([]byte("a"), lim-1), bytes.Repeat([]byte("b"), lim+1), bytes.Repeat([]byte("c"), 3*lim),
 		append(bytes.Repeat([]byte{0xfe}, lim+1), '\n'), append([]byte("\n"), bytes.Repeat([]byte("d"), lim+1)...),
 	}
-	run.Rule = fmt.Sprintf("messages = all strings of <=%d octets over {CR,LF,'.',NUL,0xFF,'a'} plus %d fixed payloads (CRLF.CRLF, command look-alikes, LF-free runs of line-limit-1, +1, x3 with the line limit set to %d) x every division into <=%d chunks (empty chunks, LAST on empty or non-empty) x segmentation {command/payload in separate segments, pipelined group per segment, everything in one segment, one octet per segment} x {SMTP, LMTP, LMTP per-recipient}; refused BDAT (no MAIL, all RCPT rejected, bad LAST token, over the size limit on the first and on a later chunk) (each followed by a further chunk that would fit: refused as well) and a backend that fails without reading the chunk (two recipients: one reply per BDAT, one per recipient only for LMTP LAST) x payloads (all strings <=%d + fixed) x segmentations; malformed BDAT lines; chunk sizes with leading zeros; chunks of 5000..150000 octets (beyond every internal buffer); BDAT lines with TAB / several spaces between the arguments and a bait chunk (taken or refused, never executed). Distinct by construction; non-trivial = payload contains CR, LF, '.', NUL, 0xFF or is longer than the line limit, or the command is refused. every accepted conversation continues with a second two-chunk message (in the 'pipelined group' segmentation under a size limit that each message fits but not both together). Oracle: one Data call per message whose reader yields the concatenation then EOF; exactly the expected reply per command; markers executed once; no payload octet executed.", maxLen, len(fixed), lim, maxParts, refLen)
+	run.Rule = fmt.Sprintf("messages = all strings of <=%d octets over {CR,LF,'.',NUL,0xFF,'a'} plus %d fixed payloads (CRLF.CRLF, command look-alikes, LF-free runs of line-limit-1, +1, x3 with the line limit set to %d) x every division into <=%d chunks (empty chunks, LAST on empty or non-empty) x segmentation {command/payload in separate segments, pipelined group per segment, everything in one segment, one octet per segment} x {SMTP, LMTP, LMTP per-recipient}; refused BDAT (no MAIL, all RCPT rejected, bad LAST token, over the size limit on the first and on a later chunk) (each followed by a further chunk that would fit: refused as well) and a backend that fails without reading the chunk (two recipients: one reply per BDAT, one per recipient only for LMTP LAST) x payloads (all strings <=%d + fixed) x segmentations; malformed BDAT lines; chunk sizes with leading zeros; chunks of 5000..150000 octets (beyond every internal buffer); BDAT lines with TAB / several spaces between the arguments and a bait chunk (taken or refused, never executed). Every accepted short conversation also with the last octets and io.EOF delivered by ONE Read (n > 0 together with an error, as crypto/tls does for a waiting close_notify). Distinct by construction; non-trivial = payload contains CR, LF, '.', NUL, 0xFF or is longer than the line limit, or the command is refused. every accepted conversation continues with a second two-chunk message (in the 'pipelined group' segmentation under a size limit that each message fits but not both together). Oracle: one Data call per message whose reader yields the concatenation then EOF; exactly the expected reply per command; markers executed once; no payload octet executed.", maxLen, len(fixed), lim, maxParts, refLen)
 	run.Assumptions = []string{"payload octet classes {CR, LF, '.', NUL, 0xFF, other}", "known finding linelimit-counts-bdat-payload (DESIGN.md D6) is matched by signature AND by an independent simulation of the limiter's sub-space; any other mismatch is a violation"}
 	var cases []C05Case
 	modes := []string{"smtp", "lmtp", "lmtp-rcpt"}
@@ -533,6 +536,10 @@ func C05(tier string) int {
 				for _, seg := range segsAll {
 					n++
 					judge(C05Case{Mode: mode, State: "ok", Msg: msg, Chunks: append([]int(nil), ch...), Seg: seg}, i%1999 == 7 && n == 5)
+					if seg == "sep" || seg == "one" {
+						// the end of the last chunk and the end of the connection arrive in one Read
+						judge(C05Case{Mode: mode, State: "ok", Msg: msg, Chunks: append([]int(nil), ch...), Seg: seg, WithErr: true}, false)
+					}
 				}
 			}
 		})
